@@ -69,12 +69,18 @@ func (w *Proxy) checkC09Quiescent() {
 func (w *Proxy) checkC09Idle() {
 	s := w.S
 	for _, u := range w.h1ups {
+		if len(u.Unknown) > 0 || u.ParseErr != nil || u.Tainted {
+			continue // carried (what MOSN made of) malformed input: the actor's view of exchanges is meaningless
+		}
 		if u.MaxInFlight > 1 || u.ReqAfterAbandon > 0 {
 			s.Violate("C09", "pingpong_not_exclusive", "upstream connection c%d to %s received a request while the previous exchange on it had not completed (%d times)", u.Conn.ID, u.Host, u.ReqAfterAbandon)
 		}
 	}
 	if w.P.Proto == ppName {
 		for _, u := range w.ups {
+			if len(u.Unknown) > 0 || u.ParseErr != nil || u.Tainted {
+				continue
+			}
 			if u.MaxInFlight > 1 {
 				s.Violate("C09", "pingpong_not_exclusive", "ping-pong upstream connection c%d to %s carried %d requests at once", u.Conn.ID, u.Host, u.MaxInFlight)
 			}
@@ -120,10 +126,14 @@ func (w *Proxy) checkC01() {
 	s := w.S
 	w.checkC01H1()
 	for _, u := range w.ups {
-		if u.ParseErr != nil {
+		if u.ParseErr != nil && w.P.Garbage == 0 {
+			// (with malformed-input clients around, MOSN may forward bytes it accepted as a frame)
 			s.Violate("C01", "upstream_unparsable", "bytes MOSN wrote to %s do not form %s frames: %v", u.Host, u.Codec.Name(), u.ParseErr)
 		}
 		for _, fr := range u.Unknown {
+			if w.fromGarbage(fr) {
+				continue // a malformed-input client's frame that still parsed: MOSN may forward what it was sent
+			}
 			s.Violate("C01", "fabricated_or_corrupt_request", "upstream %s received a request that no client sent (%d bytes)", u.Host, len(fr))
 		}
 	}
@@ -140,8 +150,8 @@ func (w *Proxy) checkC01() {
 			}
 		}
 		for _, rep := range r.Replies {
-			if rep.Tok == "" {
-				continue // MOSN-generated
+			if rep.Tok == "" || tainted(r) {
+				continue // MOSN-generated / upstream sent malformed bytes
 			}
 			got := codec.MaskID(rep.Frame)
 			ok := false
@@ -173,12 +183,12 @@ func firstDiff(a, b []byte) int {
 func (w *Proxy) checkC02() {
 	s := w.S
 	for _, c := range w.clients {
-		if c.ParseErr != nil {
+		if c.ParseErr != nil && !w.clientTainted(c.Name) {
 			s.Violate("C02", "downstream_unparsable", "bytes MOSN wrote to client %s do not form frames (interleaved or corrupt): %v", c.Name, c.ParseErr)
 		}
 	}
 	for _, c := range w.h1clients {
-		if c.ParseErr != nil {
+		if c.ParseErr != nil && !w.clientTainted(c.Name) {
 			s.Violate("C02", "downstream_unparsable", "bytes MOSN wrote to client %s are not HTTP/1 messages: %v", c.Name, c.ParseErr)
 		}
 	}
@@ -187,6 +197,9 @@ func (w *Proxy) checkC02() {
 	}
 	for _, r := range w.H.Reqs {
 		for _, rep := range r.Replies {
+			if tainted(r) {
+				continue
+			}
 			if rep.Tok == "" {
 				if rep.Success {
 					s.Violate("C02", "anonymous_success", "req#%d got a success reply that carries no token (not produced by any upstream exchange)", r.Idx)
@@ -218,6 +231,9 @@ func (w *Proxy) checkC03() {
 	for _, r := range w.H.Reqs {
 		if r.ConnID == 0 || r.SentAt == 0 {
 			continue // never sent (connect refused / client had left)
+		}
+		if w.clientBlind(r.Client) {
+			continue // the client could no longer parse what it received after an upstream's malformed reply was forwarded to it
 		}
 		n := len(r.Replies)
 		switch {
@@ -342,10 +358,13 @@ func h1HeaderDiff(sent, got *peers.H1Msg, allowExtra map[string]bool) string {
 func (w *Proxy) checkC01H1() {
 	s := w.S
 	for _, u := range w.h1ups {
-		if u.ParseErr != nil {
+		if u.ParseErr != nil && w.P.Garbage == 0 {
 			s.Violate("C01", "upstream_unparsable", "bytes MOSN wrote to %s are not HTTP/1 requests: %v", u.Host, u.ParseErr)
 		}
 		for _, fr := range u.Unknown {
+			if w.fromGarbage(fr) {
+				continue
+			}
 			s.Violate("C01", "fabricated_or_corrupt_request", "upstream %s received a request that no client sent (%d bytes)", u.Host, len(fr))
 		}
 	}
@@ -373,8 +392,8 @@ func (w *Proxy) checkC01H1() {
 			}
 		}
 		for _, rep := range r.Replies {
-			if rep.Tok != r.Token {
-				continue // MOSN-generated or cross-talk (C02)
+			if rep.Tok != r.Token || tainted(r) {
+				continue // MOSN-generated or cross-talk (C02) / upstream sent malformed bytes
 			}
 			ok := ""
 			matched := false
@@ -406,4 +425,69 @@ func (w *Proxy) checkC01H1() {
 			}
 		}
 	}
+}
+
+// fromGarbage: the frame carries material of a malformed-input client (its token
+// or its body marker), i.e. it is (part of) what that client sent.
+func (w *Proxy) fromGarbage(fr []byte) bool {
+	if len(w.garbage) == 0 {
+		return false
+	}
+	if bytes.Contains(fr, []byte("garbage-body-")) {
+		return true
+	}
+	for tok := range w.garbageTok {
+		if bytes.Contains(fr, []byte(tok)) {
+			return true
+		}
+	}
+	// a frame made of the garbage client's own bytes
+	for _, g := range w.garbage {
+		if len(fr) > 0 && bytes.Contains(g.Payload, fr) {
+			return true
+		}
+	}
+	return false
+}
+
+// tainted: some attempt of r was answered with deliberately malformed bytes by
+// its upstream. Whatever MOSN makes of such bytes (an error, or a well-formed
+// but different reply if the corruption happens to parse) is not judged by the
+// fidelity and correlation oracles; the outcome-count and liveness oracles still apply.
+func tainted(r *peers.ReqRec) bool {
+	for _, up := range r.Upstream {
+		if up.Act.Kind == "garbage_reply" || up.Act.Kind == "corrupt_reply" {
+			return true
+		}
+	}
+	return false
+}
+
+// clientTainted: some request of this client was answered with deliberately
+// malformed bytes by an upstream (which MOSN may forward if they happen to decode).
+func (w *Proxy) clientTainted(name string) bool {
+	for _, r := range w.H.Reqs {
+		if r.Client == name && tainted(r) {
+			return true
+		}
+	}
+	return false
+}
+
+// clientBlind: a tainted client whose own parser gave up.
+func (w *Proxy) clientBlind(name string) bool {
+	if !w.clientTainted(name) {
+		return false
+	}
+	for _, c := range w.clients {
+		if c.Name == name && c.ParseErr != nil {
+			return true
+		}
+	}
+	for _, c := range w.h1clients {
+		if c.Name == name && c.ParseErr != nil {
+			return true
+		}
+	}
+	return false
 }
